@@ -51,7 +51,7 @@ def check(chk, sc, out, deviation):
                         return
     # prediction errors and the likelihood
     total_n = 0
-    nll_exp, contrib_exp, quad_sum = 0.0, [], 0.0
+    nll_exp, contrib_exp, quad_sum, logdet_sum = 0.0, [], 0.0, 0.0
     for t in range(1, TK + 1):
         pe = out["pe"][t - 1]
         n = pe["n"]
@@ -78,6 +78,7 @@ def check(chk, sc, out, deviation):
         nll_exp += c
         total_n += n
         quad_sum += float(fr(pe["quad"]))
+        logdet_sum += math.log(float(fr(pe["det"]))) if n else 0.0
     g = float(info["neg_log_likelihood"])
     if not close(g, nll_exp):
         chk.mismatch(tag + ":neg_log_likelihood", desc + ": neg_log_likelihood %r, negative log-density of the observations %r" % (g, nll_exp), payload)
@@ -100,11 +101,96 @@ def check(chk, sc, out, deviation):
             if not close(gsc, scale_exp):
                 chk.mismatch(tag + ":var_scale", desc + ": var_scale %r, sum of normalised squared prediction errors / number of observations = %r" % (gsc, scale_exp), payload)
                 return
+            # the likelihood concentrated with respect to the common variance scale, at its maximiser s2 = Q / N:
+            # 1/2 [ N log 2pi + sum log det F_t + N log s2 + N ]   (N = number of observations, not of periods)
+            nll_resc = 0.5 * (total_n * math.log(2 * math.pi) + logdet_sum + total_n * math.log(scale_exp) + total_n)
+            g2 = float(info2["neg_log_likelihood"])
+            if not close(g2, nll_resc):
+                chk.mismatch(tag + ":rescaled-likelihood", desc + ": with rescale_variance=True neg_log_likelihood is %r, the negative log-density at the maximum-likelihood "
+                             "variance scale is %r (N = %d observations in %d periods)" % (g2, nll_resc, total_n, TK), payload)
+                return
+            # means are unchanged by the rescaling, variances are multiplied by the scale
+            for t in range(1, TK + 1):
+                for q, n_ in enumerate(names[:nx]):
+                    e = float(fr(out["smooth"][t - 1]["mean"][q]))
+                    g_ = val(res2, "smooth_med", n_, t)
+                    ev = float(fr(out["smooth"][t - 1]["var"][q])) * scale_exp
+                    gs = val(res2, "smooth_std", n_, t)
+                    if not close(g_, e) or math.isnan(gs) or abs(gs * gs - ev) > 1e-8 * max(1.0, ev):
+                        chk.mismatch(tag + ":rescaled-moments", desc + ": with rescale_variance=True smoothed %s in period %d is %r with variance %r; exact mean %r, variance x scale %r" % (
+                            n_, t, g_, gs * gs, e, ev), payload)
+                        return
         except Exception as ex:
             chk.mismatch(tag + ":rescale:raised:" + type(ex).__name__, desc + ": rescale_variance=True raised %r" % (ex,), payload)
 
 
+def check_recursion_clauses(chk, sc, out):
+    """Unit-root models (diffuse initial condition): no exact moments in the spec; what the statement implies for ANY model is evaluated on the
+    filter's own output: (i) the predicted mean is the transition equation applied to the updated mean of the previous period with zero shocks,
+    (ii) without an observation the update changes nothing, (iii) in the last period smoothing changes nothing, (iv) predicted measurement
+    variables follow the measurement equations on the predicted states."""
+    from .C08 import val_t
+    from .lre_common import model, per, quiet
+    payload = {"kind": "kalman-clauses", "sc": _plain(sc), "src": list(out["src"])}
+    tag = "kalman-clauses:%s" % sc["id"]
+    T = len(sc["data"])
+    desc = "model %s data %s (diffuse / unknown initial condition)" % (sc["id"], _plain(sc["data"]))
+    try:
+        m = model(out["src"], True, fresh=True)
+        db = ir.Databox()
+        for i, n in enumerate(out["mvars"]):
+            db[n] = ir.Series(start=per(1), values=np.array([math.nan if nanv(r[i]) else float(r[i]) for r in sc["data"]], dtype=float))
+        res, info = quiet(m.kalman_filter, db, ir.Span(per(1), per(T)), return_info=True)
+    except Exception as ex:
+        chk.mismatch(tag + ":raised:" + type(ex).__name__, desc + ": raised %r" % (ex,), payload)
+        return
+    g = lambda group, n, t: val_t(res, group, n, t)
+    for t in range(2, T + 1):
+        for i, q in enumerate(out["teq"]):
+            if any(sh > 0 or sh < -1 for (_, _, sh) in q["tx"]):
+                continue
+            r = float(fr(q["c"])) + sum(float(fr(c)) * (g("predict_med", out["vars"][j - 1], t) if sh == 0 else g("update_med", out["vars"][j - 1], t - 1)) for (c, j, sh) in q["tx"])
+            if not abs(r) <= 1e-7:
+                chk.mismatch(tag + ":prediction-step", desc + ": transition equation %d has residual %r with the predicted means of period %d and the updated means of period %d (zero shocks)" % (i + 1, r, t, t - 1), payload)
+                return
+        for i, q in enumerate(out["meq"]):
+            if any(sh != 0 for (_, _, sh) in q["tx"]):
+                continue
+            rhs = float(fr(q["d"])) + sum(float(fr(c)) * g("predict_med", out["vars"][j - 1], t) for (c, j, sh) in q["tx"])
+            gm = g("predict_med", out["mvars"][i], t)
+            if not math.isnan(gm) and not abs(gm - rhs) <= 1e-7 * max(1.0, abs(rhs)):
+                chk.mismatch(tag + ":predicted-measurement", desc + ": predicted %s in period %d is %r, its measurement equation on the predicted states gives %r" % (out["mvars"][i], t, gm, rhs), payload)
+                return
+    for t in range(1, T + 1):
+        if all(nanv(x) for x in sc["data"][t - 1]):
+            for n in out["vars"]:
+                for grp in ("med", "std"):
+                    a, b = g("update_" + grp, n, t), g("predict_" + grp, n, t)
+                    if not (abs(a - b) <= 1e-8 * max(1.0, abs(b))):
+                        chk.mismatch(tag + ":update-without-observation", desc + ": period %d has no observation but update_%s of %s is %r, predict_%s %r" % (t, grp, n, a, grp, b), payload)
+                        return
+    for n in out["vars"]:
+        for grp in ("med", "std"):
+            a, b = g("smooth_" + grp, n, T), g("update_" + grp, n, T)
+            if not (abs(a - b) <= 1e-7 * max(1.0, abs(b))):
+                chk.mismatch(tag + ":last-period", desc + ": in the last period smooth_%s of %s is %r, update_%s %r" % (grp, n, a, grp, b), payload)
+                return
+
+
 def run(chk):
+    from .. import tlc as _tlc, tlaval as _tv
+    import os as _os
+    dumpc = chk.scratch.file("kalmanc.dump")
+    rc = _tlc.must_pass(_tlc.run("KalmanMC", "KalmanMC.clauses.cfg", chk.scratch, dump=dumpc, timeout=600), "KalmanMC/clauses")
+    chk.add_tlc(rc, "KalmanMC/clauses")
+    nc = 0
+    for st in _tv.parse_dump(dumpc, want=lambda b: "done = TRUE" in b):
+        if len(st["sc"]["ant"]) == 0:
+            check_recursion_clauses(chk, st["sc"], st["out"])
+            nc += 1
+    _os.remove(dumpc)
+    chk.replayed += nc
+    chk.notes["clause_only_runs_unit_root"] = nc
     scen = scenarios(chk)
     n = 0
     for sc, out in scen:
@@ -119,7 +205,8 @@ def run(chk):
     chk.rule = ("models L1, L9 (lagged state in the measurement equation), LK (two observables, two measurement shocks), LK2 (two states) x 3-4 data sets "
                 "with missing-value masks incl. periods without observations x 2 shock variances x 2 measurement variances, 3 periods, level and "
                 "deviation mode, rescale_variance; a case is one filter run")
-    chk.assumptions = ["stationary models started from their unconditional distribution; diffuse initialisation (unit roots) is not covered",
+    chk.assumptions = ["stationary models are started from their unconditional distribution and decided by exact moments; for unit-root models (diffuse / unknown "
+                       "initial condition) only the recursion clauses (prediction step, update without observation, last period, predicted measurement) are decided",
                        "variances are chosen so that stationary covariances are small rationals; stds are assigned as their square roots; numpy trusted"]
 
 
